@@ -1,0 +1,96 @@
+//go:build verif
+
+// Contracts for package os2, checked by /verif/engine (gvc).  This file
+// contains comments only; it is compiled only with the "verif" build tag.
+package os2
+
+// "OS/2" table (OpenType): version at byte 0, usWeightClass at 4, usWidthClass
+// at 6, fsType at 8, fsSelection at 62, usFirstCharIndex at 64,
+// usLastCharIndex at 66.  fsSelection bits: 0 ITALIC, 5 BOLD, 6 REGULAR,
+// 9 OBLIQUE (defined from version 4 on; bits 7-15 are to be ignored in
+// versions 0-3).  fsType: bits 1-3 usage permissions (the least restrictive
+// set bit wins), bit 8 no subsetting, bit 9 bitmap embedding only (bits 8, 9
+// are defined from version 3 on... the reader masks to the low nibble below
+// version 3).
+//@ spec s16(x int) int = ite(x >= 32768, x - 65536, x)
+//@ spec w(d seq, i int) int = d[i]*256 + d[i+1]
+//@ func Read(r io.Reader) (info *Info, err error)   props: C12 C02 C18
+//@   requires r != nil
+//@   let p = old(rpos(r)); d = file(r)
+//@   let ver = d[p]*256 + d[p+1]; sel = d[p+62]*256 + d[p+63]; ty = d[p+8]*256 + d[p+9]
+//@   let pb = ite(ver < 3, ty%16, ty)
+//@   ensures faults(r) > old(faults(r)) ==> err != nil
+//@   ensures reliable(r) ==> faults(r) == old(faults(r))
+//@   ensures faults(r) == old(faults(r)) && ver <= 5 && p >= 0 && p + 96 <= fsize(r) ==> err == nil   // a complete table is accepted
+//@   ensures err == nil ==> info != nil && ver <= 5 && p + 68 <= fsize(r)
+//@   ensures err == nil ==> info.IsOblique == (ver >= 4 && (sel/512)%2 == 1)
+//@   ensures err == nil ==> info.IsRegular == ((sel/64)%2 == 1)
+//@   ensures err == nil ==> info.IsBold == ((sel/32)%2 == 1 && (sel/64)%2 == 0)
+//@   ensures err == nil ==> info.IsItalic == (sel%2 == 1 && (sel/64)%2 == 0)
+//@   ensures err == nil ==> info.WeightClass == d[p+4]*256 + d[p+5] && info.WidthClass == d[p+6]*256 + d[p+7]
+//@   ensures err == nil ==> info.FirstCharIndex == d[p+64]*256 + d[p+65] && info.LastCharIndex == d[p+66]*256 + d[p+67]
+//@   ensures err == nil ==> info.PermUse == ite((pb/8)%2 == 1, PermEdit, ite((pb/4)%2 == 1, PermView, ite((pb/2)%2 == 1, PermRestricted, PermInstall)))
+//@   ensures err == nil ==> info.PermNoSubsetting == ((pb/256)%2 == 1) && info.PermOnlyBitmap == ((pb/512)%2 == 1)
+//@   ensures err == nil ==> info.AvgGlyphWidth == s16(w(d, p+2)) && info.FamilyClass == s16(w(d, p+30))
+//@   ensures err == nil ==> info.SubscriptXSize == s16(w(d, p+10)) && info.SubscriptYSize == s16(w(d, p+12)) && info.SubscriptXOffset == s16(w(d, p+14)) && info.SubscriptYOffset == s16(w(d, p+16))
+//@   ensures err == nil ==> info.SuperscriptXSize == s16(w(d, p+18)) && info.SuperscriptYSize == s16(w(d, p+20)) && info.SuperscriptXOffset == s16(w(d, p+22)) && info.SuperscriptYOffset == s16(w(d, p+24))
+//@   ensures err == nil ==> info.StrikeoutSize == s16(w(d, p+26)) && info.StrikeoutPosition == s16(w(d, p+28))
+//@   ensures err == nil ==> info.Panose[0] == d[p+32] && info.Panose[1] == d[p+33] && info.Panose[2] == d[p+34] && info.Panose[3] == d[p+35] && info.Panose[4] == d[p+36] && info.Panose[5] == d[p+37] && info.Panose[6] == d[p+38] && info.Panose[7] == d[p+39] && info.Panose[8] == d[p+40] && info.Panose[9] == d[p+41]
+//@   ensures err == nil ==> len(info.Vendor) == 4 && info.Vendor[0] == d[p+58] && info.Vendor[1] == d[p+59] && info.Vendor[2] == d[p+60] && info.Vendor[3] == d[p+61]
+//@   ensures err == nil && p + 78 <= fsize(r) ==> info.Ascent == s16(w(d, p+68)) && info.Descent == s16(w(d, p+70)) && info.LineGap == s16(w(d, p+72)) && info.WinAscent == s16(w(d, p+74)) && info.WinDescent == s16(w(d, p+76))
+//@   ensures err == nil ==> p + 68 == fsize(r) || p + 78 <= fsize(r)   // the short (Apple) form has no further data at all
+//@   ensures err == nil && ver >= 2 && p + 68 < fsize(r) ==> p + 96 <= fsize(r)
+//@   ensures err == nil && ver >= 2 && p + 68 < fsize(r) ==> info.XHeight == max(s16(w(d, p+86)), 0) && info.CapHeight == max(s16(w(d, p+88)), 0)
+//@   ensures err == nil && ver >= 2 && p + 68 < fsize(r) ==> info.CodePageRange == d[p+78]*16777216 + d[p+79]*65536 + d[p+80]*256 + d[p+81] + d[p+82]*72057594037927936 + d[p+83]*281474976710656 + d[p+84]*1099511627776 + d[p+85]*4294967296
+//@   modifies rpos(r), faults(r)
+
+// Bool sets or clears one bit of the 128-bit range set; nothing else changes.
+//@ func (ur *UnicodeRange) Bool(bit UnicodeRangeBit, set bool)   props: C12
+//@   requires ur != nil && 0 <= bit && bit < 128
+//@   modifies ur[*]
+
+// Encode writes a version 4 table of 96 bytes; the field offsets are those of
+// the OpenType specification (see Read).  Signed fields are stored in two's
+// complement.
+//@ spec u16(x int) int = (x + 65536) % 65536
+//@ func (info *Info) Encode() (out []byte)   props: C12 C01
+//@   requires info != nil
+//@   ensures len(out) == 96 && be16(out, 0) == 4
+//@   ensures be16(out, 2) == u16(info.AvgGlyphWidth) && be16(out, 4) == info.WeightClass && be16(out, 6) == info.WidthClass
+//@   ensures be16(out, 8) == ite(info.PermUse == PermRestricted, 2, ite(info.PermUse == PermView, 4, ite(info.PermUse == PermEdit, 8, 0))) + ite(info.PermNoSubsetting, 256, 0) + ite(info.PermOnlyBitmap, 512, 0)
+//@   ensures be16(out, 10) == u16(info.SubscriptXSize) && be16(out, 12) == u16(info.SubscriptYSize) && be16(out, 14) == u16(info.SubscriptXOffset) && be16(out, 16) == u16(info.SubscriptYOffset)
+//@   ensures be16(out, 18) == u16(info.SuperscriptXSize) && be16(out, 20) == u16(info.SuperscriptYSize) && be16(out, 22) == u16(info.SuperscriptXOffset) && be16(out, 24) == u16(info.SuperscriptYOffset)
+//@   ensures be16(out, 26) == u16(info.StrikeoutSize) && be16(out, 28) == u16(info.StrikeoutPosition) && be16(out, 30) == u16(info.FamilyClass)
+//@   ensures out[32] == info.Panose[0] && out[33] == info.Panose[1] && out[34] == info.Panose[2] && out[35] == info.Panose[3] && out[36] == info.Panose[4] && out[37] == info.Panose[5] && out[38] == info.Panose[6] && out[39] == info.Panose[7] && out[40] == info.Panose[8] && out[41] == info.Panose[9]
+//@   ensures be16(out, 62) == ite(info.IsRegular, 64, ite(info.IsItalic, 1, 0) + ite(info.IsBold, 32, 0)) + ite(info.IsOblique, 512, 0) + 128
+//@   ensures be16(out, 64) == info.FirstCharIndex && be16(out, 66) == info.LastCharIndex
+//@   ensures be16(out, 68) == u16(info.Ascent) && be16(out, 70) == u16(info.Descent) && be16(out, 72) == u16(info.LineGap) && be16(out, 74) == u16(info.WinAscent) && be16(out, 76) == u16(info.WinDescent)
+//@   ensures be16(out, 86) == u16(info.XHeight) && be16(out, 88) == u16(info.CapHeight)
+//@   ensures info.CodePageRange == out[78]*16777216 + out[79]*65536 + out[80]*256 + out[81] + out[82]*72057594037927936 + out[83]*281474976710656 + out[84]*1099511627776 + out[85]*4294967296
+//@   ensures len(info.Vendor) == 4 ==> out[58] == info.Vendor[0] && out[59] == info.Vendor[1] && out[60] == info.Vendor[2] && out[61] == info.Vendor[3]
+//@   ensures len(info.Vendor) != 4 ==> out[58] == 32 && out[59] == 32 && out[60] == 32 && out[61] == 32
+//@   modifies nothing
+
+// Round trip (lemma over the two contracts above): decoding an encoded table
+// gives back weight, width, style bits, permissions, metrics, PANOSE, vendor
+// and code page bits.  Normalisations of the encoder, visible here: bold and
+// italic are dropped for a regular font; a vendor tag that is not 4 bytes
+// long becomes four spaces; non-positive x-height / cap-height read back as 0.
+//@ func verifRoundTrip(info *Info) (res *Info, err error)   props: C12 C01
+//@   requires info != nil
+//@   ensures err == nil && res != nil
+//@   ensures res.WeightClass == info.WeightClass && res.WidthClass == info.WidthClass
+//@   ensures res.IsRegular == info.IsRegular && res.IsOblique == info.IsOblique
+//@   ensures !info.IsRegular ==> res.IsBold == info.IsBold && res.IsItalic == info.IsItalic
+//@   ensures info.IsRegular ==> !res.IsBold && !res.IsItalic
+//@   ensures info.PermUse == PermInstall || info.PermUse == PermRestricted || info.PermUse == PermView || info.PermUse == PermEdit ==> res.PermUse == info.PermUse
+//@   ensures res.PermNoSubsetting == info.PermNoSubsetting && res.PermOnlyBitmap == info.PermOnlyBitmap
+//@   ensures res.FirstCharIndex == info.FirstCharIndex && res.LastCharIndex == info.LastCharIndex && res.AvgGlyphWidth == info.AvgGlyphWidth && res.FamilyClass == info.FamilyClass
+//@   ensures res.SubscriptXSize == info.SubscriptXSize && res.SubscriptYSize == info.SubscriptYSize && res.SubscriptXOffset == info.SubscriptXOffset && res.SubscriptYOffset == info.SubscriptYOffset
+//@   ensures res.SuperscriptXSize == info.SuperscriptXSize && res.SuperscriptYSize == info.SuperscriptYSize && res.SuperscriptXOffset == info.SuperscriptXOffset && res.SuperscriptYOffset == info.SuperscriptYOffset
+//@   ensures res.StrikeoutSize == info.StrikeoutSize && res.StrikeoutPosition == info.StrikeoutPosition
+//@   ensures res.Ascent == info.Ascent && res.Descent == info.Descent && res.LineGap == info.LineGap && res.WinAscent == info.WinAscent && res.WinDescent == info.WinDescent
+//@   ensures res.XHeight == max(info.XHeight, 0) && res.CapHeight == max(info.CapHeight, 0)
+//@   ensures res.CodePageRange == info.CodePageRange
+//@   ensures res.Panose[0] == info.Panose[0] && res.Panose[1] == info.Panose[1] && res.Panose[2] == info.Panose[2] && res.Panose[3] == info.Panose[3] && res.Panose[4] == info.Panose[4] && res.Panose[5] == info.Panose[5] && res.Panose[6] == info.Panose[6] && res.Panose[7] == info.Panose[7] && res.Panose[8] == info.Panose[8] && res.Panose[9] == info.Panose[9]
+//@   ensures len(info.Vendor) == 4 ==> len(res.Vendor) == 4 && res.Vendor[0] == info.Vendor[0] && res.Vendor[1] == info.Vendor[1] && res.Vendor[2] == info.Vendor[2] && res.Vendor[3] == info.Vendor[3]
